@@ -196,4 +196,9 @@ Definition known_TE_arity (c : dd_case) : bool :=
 (** F1 / F3 / F14: equal parameter counts, but the both-visited or same-id shortcut, or a
     difference "explained" by a nested generic's parameter, hides a difference *)
 Definition known_TE_unsound (c : dd_case) : bool :=
-  match which c with [] => false | l => forallb (fun t => inconsistent_case t && negb (arity_differs t)) l end.
+  match which c with
+  | [] => false
+  | l => forallb (fun t => inconsistent_case t && negb (arity_differs t) && known_F3_conflation t) l
+  end.
+Definition corr_teq_trace_dd (c : dd_case) : bool :=
+  corr_teq_trace (dd_before c) && match dd_after c with Some a => corr_teq_trace a | None => true end.
